@@ -108,3 +108,9 @@ package loop
 //@ func foldSCEV
 //@   ensures [C12.fold] gen(result, op, left, right)
 
+// ---- C12: a value computed by an instruction is loop-invariant only if that instruction lies outside the loop
+// (a value defined in the loop's own header varies with the iteration)
+//@ func (*SCEVUnknown).IsLoopInvariant
+//@   noframe
+//@   return-ensures [C12.invariant] result && instr != nil ==> !loop.Blocks[purecall("invoke:golang.org/x/tools/go/ssa.Instruction.Block", instr)]
+
